@@ -28,6 +28,13 @@ Contract file format (line oriented):
   @proof before-any|after-any ANCHOR     the same, zero occurrences allowed (ghost bookkeeping of
                           a statement whose absence must show up in a later obligation)
   @sig OLD => NEW         literal replacement inside the signature (e.g. `mut self`)
+  @ghost                   the lines that follow (ghost `let` declarations) go at the start of the body
+  @ledger TOKEN :: REGEX => PROOF   ghost bookkeeping of a call shape: before EVERY statement matching
+                          REGEX (a regular expression over the extracted text; `$1`.. are its groups)
+                          `proof { PROOF }` is inserted. Zero matches are allowed, but every occurrence
+                          of TOKEN in the body must lie inside a match - a call of that kind the pattern
+                          does not recognise makes the unit undecided instead of silently uncounted.
+  @ledger-after ...       the same, inserted after the statement
   @closure |PARAMS| => |TYPED PARAMS| -> (NAME: T)
                           the closure header |PARAMS| (must occur once in the body, after the
                           rewrite rules) gets parameter types / a named result, and the lines
@@ -61,6 +68,8 @@ class FnContract:
         self.proofs = []     # (where, anchor, text)
         self.sigsubs = []    # (old, new)
         self.closures = []   # (old header, new header, clauses text)
+        self.ghost = []      # text at body start
+        self.ledgers = []    # (token, regex, proof text, after?)
         self.decreases = None
         self.attrs = []
 
@@ -111,11 +120,13 @@ def parse_contracts(path):
             cur.proofs.append((where, anchor, text))
         elif section == "closure":
             cur.closures.append((arg[0], arg[1], text))
+        elif section == "ghost":
+            cur.ghost.append(text)
         buf = []
 
     for raw in open(path):
         ln = raw.rstrip("\n")
-        if ln.startswith("#") and section not in ("proof", "loop", "requires", "ensures", "closure"):
+        if ln.startswith("#") and section not in ("proof", "loop", "requires", "ensures", "closure", "ghost"):
             continue
         if ln.startswith("@"):
             flush()
@@ -145,6 +156,12 @@ def parse_contracts(path):
             elif tag == "sig":
                 old, new = rest.split("=>")
                 cur.sigsubs.append((old.strip(), new.strip()))
+            elif tag == "ghost":
+                section = "ghost"
+            elif tag in ("ledger", "ledger-after"):
+                token, rest2 = rest.split("::", 1)
+                rx, proof = rest2.split("=>", 1)
+                cur.ledgers.append((token.strip(), rx.strip(), proof.strip(), tag == "ledger-after"))
             elif tag == "closure":
                 old, new = rest.split("=>", 1)
                 section = "closure"
@@ -384,6 +401,26 @@ class Gen:
                     ins.append((loops[k - 1][1], k, text))
                 for pos, k, text in sorted(ins, reverse=True):
                     body = body[:pos] + "\n/*@LOOP %d*/\n" % k + text + "\n/*@ENDLOOP*/\n" + body[pos:]
+            for token, rx, proof, after in ctr.ledgers:
+                hits = list(re.finditer(rx, body))
+                covered = sum(body[h.start():h.end()].count(token) for h in hits)
+                if body.count(token) != covered:
+                    raise Undecided("%s: a use of `%s` is not of the shape the ledger pattern recognises" % (key, token))
+                for h in reversed(hits):
+                    ptxt = proof
+                    for gi in range(1, (h.lastindex or 0) + 1):
+                        ptxt = ptxt.replace("$%d" % gi, h.group(gi))
+                    if after:
+                        pos = body.find("\n", h.end())
+                        pos = len(body) if pos < 0 else pos + 1
+                    else:
+                        pos = body.rfind("\n", 0, h.start()) + 1
+                    body = body[:pos] + "/*@PROOF*/\nproof { " + ptxt + " }\n/*@ENDPROOF*/\n" + body[pos:]
+                self.fidelity.append(dict(rule="ledger", file=s.path, line=body_line, fn=key, before=rx, after="%d statement(s) of this shape carry: %s" % (len(hits), proof),
+                                          trusted="nothing (ghost bookkeeping)"))
+            for gtext in ctr.ghost:
+                ob = body.index("{")
+                body = body[:ob + 1] + "\n/*@PROOF*/\n" + gtext + "\n/*@ENDPROOF*/\n" + body[ob + 1:]
             for old, newhdr, text in ctr.closures:
                 sp = _find_anchor(body, old)
                 if sp is None:
